@@ -9,7 +9,7 @@
                                           the '.'/'..' skip, the b'/' in filename check, follow_symlinks,
                                           recurse, preserve, error_handler on/off)
      SFTPClient._begin_copy      sftp.py  "async def _begin_copy"  (dst_isdir, compose_path, basename)
-     SFTPGlob._match_pattern     sftp.py  only the single-pattern case "dir/*" (glob_star)
+     SFTPGlob._match_pattern / match   sftp.py  only the single-pattern case "dir/*" (glob_star)
      LocalFS.isdir/mkdir/symlink/open/setstat, posixpath.join/basename
    The destination file system is an abstract map  canonical path -> kind ; everything that is
    reached THROUGH a symbolic link is answered by an arbitrary oracle [orc] (the theorems hold for
@@ -57,6 +57,7 @@ Definition res_none (r : res) : bool := match r with RNone => true | _ => false 
 Definition res_dir (r : res) : bool := match r with RDir => true | _ => false end.
 Definition is_klink (k : kind) : bool := match k with KLink => true | _ => false end.
 Definition is_nil (b : bytes) : bool := match b with [] => true | _ => false end.
+Definition is_nil_l {A} (l : list A) : bool := match l with [] => true | _ => false end.
 
 Fixpoint lookup (c : bytes) (fs : fsT) : option kind :=
   match fs with
@@ -151,7 +152,11 @@ Definition op_path (o : op) : bytes :=
   | OIsdir p _ _ | OMkdir p _ _ | OSymlink _ p _ _ | OWrite p _ _ | OSetstat p _ _ _ | OErr _ p => p
   end.
 
-Record cfg := Cfg { preserve : bool; recurse : bool; follow : bool; handler : bool; dupcheck : bool }.
+(* preserve / recurse / follow_symlinks / an error handler is installed are the caller's options;
+   dupcheck = the `symlinks` set of a79246f is in place, presfix = the setstat flag of 6e0d949
+   (follow_symlinks = filetype != SYMLINK; before: follow_symlinks or filetype != SYMLINK) *)
+Record cfg := Cfg { preserve : bool; recurse : bool; follow : bool; handler : bool;
+                    dupcheck : bool; presfix : bool }.
 
 Definition state := (fsT * list bytes)%type.      (* file system, the `symlinks` set of this copy *)
 Definition result := (list op * state * option ecls)%type.
@@ -215,7 +220,7 @@ Definition copy_body (orc : bytes -> res) (c : cfg) (rec : node -> bytes -> stat
   | Link t _ =>
       let '(ok, fs1) := do_symlink orc fs t dp in
       let o := OSymlink t dp ok (thru_of fs dp false) in
-      if ok then preserve_step orc c [o] (fs1, dp :: links) dp (follow c)
+      if ok then preserve_step orc c [o] (fs1, dp :: links) dp (if presfix c then false else follow c)
       else ([o], s, Some EOther)
   | File rd_ok =>
       let '(ok, fs1) := do_write orc fs dp in
@@ -261,25 +266,56 @@ Definition begin_copy (orc : bytes -> res) (c : cfg) (fuel : nat) (dst : bytes)
     let '(ops, s, r) := copy_tops (copy_node orc c fuel) dst isd srcs (fs0, []) in
     (o0 :: ops, s, r).
 
-Definition mkcfg (pres rec fol hnd : bool) : cfg := Cfg pres rec fol hnd true.
-Definition old_of (c : cfg) : cfg := Cfg (preserve c) (recurse c) (follow c) (handler c) false.
+Definition mkcfg (pres rec fol hnd : bool) : cfg := Cfg pres rec fol hnd true true.
+(* the code before a79246f (no `symlinks` set) / before 6e0d949 (setstat flag) *)
+Definition old_dup (c : cfg) : cfg := Cfg (preserve c) (recurse c) (follow c) (handler c) false (presfix c).
+Definition old_pres (c : cfg) : cfg := Cfg (preserve c) (recurse c) (follow c) (handler c) (dupcheck c) false.
 
 (* the plan of the code as it is *)
 Definition copy_plan (orc : bytes -> res) (c : cfg) (dst : bytes) (srcs : list (bytes * node))
            (fs0 : fsT) : list op :=
   fst (fst (begin_copy orc c (S (srcs_size srcs)) dst srcs fs0)).
 
-(* the plan of the code before a79246f (no `symlinks` set) *)
 Definition copy_plan_old (orc : bytes -> res) (c : cfg) (dst : bytes) (srcs : list (bytes * node))
            (fs0 : fsT) : list op :=
-  copy_plan orc (old_of c) dst srcs fs0.
+  copy_plan orc (old_dup c) dst srcs fs0.
 
 (* ---- glob expansion of the single pattern  dir/*  -------------------------------------------
-   SFTPGlob._match_pattern: names '.' and '..' are skipped, every other listed name matches '*'
-   (fnmatch lets '*' match '/'), the match is posixpath.join(dir, name) and _begin_copy takes its
-   posixpath.basename. *)
-Definition basename (p : bytes) : bytes := last (split_on SLASH p) [].
+   SFTPGlob._match_pattern: names '.' and '..' are skipped, a name containing '/' ends the
+   expansion with SFTPBadMessage (abbc782; slashfix = false is the code before), every other
+   listed name matches '*', the match is posixpath.join(dir, name) and _begin_copy takes its
+   posixpath.basename.  SFTPGlob.match: an error goes to the error handler (the matches found so
+   far are copied) or is raised; no match at all is an error too. *)
+Fixpoint upto_slash (l : bytes) : bytes :=
+  match l with [] => [] | c :: r => if c =? SLASH then [] else c :: upto_slash r end.
+(* posixpath.basename: everything after the last slash *)
+Definition basename (p : bytes) : bytes := rev (upto_slash (rev p)).
 
-Definition glob_star (dir : bytes) (listing : list (bytes * node)) : list (bytes * node) :=
-  map (fun e => (basename (pjoin dir (fst e)), snd e))
-      (filter (fun e => negb (get_name_skipped (fst e))) listing).
+Fixpoint glob_scan (slashfix : bool) (dir : bytes) (listing : list (bytes * node))
+  : list (bytes * node) * option ecls :=
+  match listing with
+  | [] => ([], None)
+  | e :: r =>
+      if get_name_skipped (fst e) then glob_scan slashfix dir r
+      else if slashfix && mem_z SLASH (fst e) then ([], Some EBad)
+      else let '(m, x) := glob_scan slashfix dir r in ((basename (pjoin dir (fst e)), snd e) :: m, x)
+  end.
+
+Definition glob_star (slashfix : bool) (dir : bytes) (listing : list (bytes * node))
+  : list (bytes * node) * option ecls :=
+  let '(m, x) := glob_scan slashfix dir listing in
+  (m, match x with Some e => Some e | None => if is_nil_l m then Some EOther else None end).
+
+(* _begin_copy with expand_glob for the pattern dir/* : (glob error reported to the handler?, result) *)
+Definition begin_copy_glob (orc : bytes -> res) (c : cfg) (slashfix : bool) (dst dir : bytes)
+           (listing : list (bytes * node)) (fs0 : fsT) : option ecls * result :=
+  let '(srcs, gerr) := glob_star slashfix dir listing in
+  match gerr with
+  | Some e => if handler c then (Some e, begin_copy orc c (S (srcs_size srcs)) dst srcs fs0)
+              else (None, ([], (fs0, []), Some e))
+  | None => (None, begin_copy orc c (S (srcs_size srcs)) dst srcs fs0)
+  end.
+
+Definition copy_plan_glob (orc : bytes -> res) (c : cfg) (slashfix : bool) (dst dir : bytes)
+           (listing : list (bytes * node)) (fs0 : fsT) : list op :=
+  fst (fst (snd (begin_copy_glob orc c slashfix dst dir listing fs0))).
